@@ -234,6 +234,35 @@ impl Dw {
 }
 
 pub fn run(rng: &mut Rng, n: usize, rep: &mut Report) {
+    run_with(rng, n, rep, &mut None)
+}
+
+/// family `venue` (Drift part): one `vn.ddep` / `vn.dwd` line per real drift_deposit / drift_withdraw of this monitor whose outcome
+/// the instruction-level model (Mfi/Model/Venue.lean: driftDeposit / driftWithdraw) speaks about: entitled signer, operational
+/// bank, a venue that does what it is asked (no skew) or an instruction that went through
+pub fn gen(rng: &mut Rng, n: usize, out: &mut Vec<String>) {
+    let mut guard = 0;
+    while out.len() < n && guard < 200 {
+        guard += 1;
+        let mut scratch = Report::default();
+        let mut part: Option<Vec<String>> = Some(vec![]);
+        run_with(rng, 400, &mut scratch, &mut part);
+        out.extend(part.unwrap());
+    }
+    out.truncate(n);
+}
+
+fn pos_of(w: &World, acct: &Pubkey, bank: &Pubkey) -> Option<marginfi_type_crate::types::Balance> {
+    w.marginfi_account(acct).lending_account.balances.iter().find(|b| b.is_active() && b.bank_pk == *bank).cloned()
+}
+fn pos_line(x: &Option<marginfi_type_crate::types::Balance>) -> String {
+    match x {
+        Some(bal) => format!("1 {}", crate::fam_bank::Bal::from_balance(bal).line()),
+        None => "0 0 0 0 0 0 0".to_string(),
+    }
+}
+
+pub fn run_with(rng: &mut Rng, n: usize, rep: &mut Report, lines: &mut Option<Vec<String>>) {
     let mut done = 0usize;
     while done < n {
         let Some(mut k) = build(rng, rep) else { rep.bump("world_build_failed"); done += 1; continue };
@@ -263,9 +292,28 @@ pub fn run(rng: &mut Rng, n: usize, rep: &mut Report) {
                     let skew: i64 = if rng.chance(1, 5) { *rng.pick(&[-2i64, -1, 1, 2]) } else { 0 };
                     DRIFT_SKEW_SCALED.store(skew, Ordering::SeqCst);
                     let who = if rng.chance(1, 8) { stranger } else { wallet };
+                    let p0 = pos_of(&k.w, &acct, &k.db.bank);
+                    let flags0 = k.w.marginfi_account(&acct).account_flags;
                     let r = k.w.exec(&k.deposit_ix(u, who, amount));
                     DRIFT_SKEW_SCALED.store(0, Ordering::SeqCst);
                     let exact: BigInt = BigInt::from(amount) * &prec / &cum;
+                    if let (Some(l), true) = (lines.as_mut(), who == wallet && state == BankOperationalState::Operational && flags0 == 0) {
+                        let post = BigInt::from(d0) + &exact + BigInt::from(skew);
+                        let head = format!("vn.ddep {} {} {} {} {} {} {} {} {}", crate::fam_bank::B::from_bank(&bank0).line(), bank0.last_update, pos_line(&p0), k.w.clock_ts,
+                            amount, k.dec, cum, d0, post);
+                        match &r {
+                            Ok(()) => {
+                                let b1 = k.w.bank(&k.db.bank);
+                                let p1 = pos_of(&k.w, &acct, &k.db.bank);
+                                l.push(format!("{} => ok {} {} {} {}", head, crate::fam_bank::B::from_bank(&b1).line(), b1.last_update, pos_line(&p1), k.drift_balance() as i128 - d0));
+                            }
+                            Err(e) => match e.code() {
+                                // (6300..6307: constraints on the venue accounts themselves — outside this model)
+                                Some(c) if c >= 6000 && !(6300..=6307).contains(&c) => l.push(format!("{} => err {}", head, c)),
+                                _ => {}
+                            },
+                        }
+                    }
                     match r {
                         Err(e) => {
                             rep.bump("deposit_refused");
@@ -306,9 +354,29 @@ pub fn run(rng: &mut Rng, n: usize, rep: &mut Report) {
                         let a = k.w.marginfi_account(&acct);
                         a.lending_account.balances.iter().find(|b| b.is_active() && b.bank_pk == k.debt.bank).map(|b| bits(b.liability_shares)).unwrap_or(0)
                     };
+                    let p0 = pos_of(&k.w, &acct, &k.db.bank);
+                    let flags0 = k.w.marginfi_account(&acct).account_flags;
                     let r = k.w.exec(&k.withdraw_ix(u, who, amount, all));
                     DRIFT_SKEW_SCALED.store(0, Ordering::SeqCst);
                     DRIFT_SKEW_TOKENS.store(0, Ordering::SeqCst);
+                    if let (Some(l), true) = (lines.as_mut(), who == wallet && state != BankOperationalState::Paused && state != BankOperationalState::KilledByBankruptcy && flags0 == 0 && (r.is_ok() || (sk_s == 0 && sk_t == 0))) {
+                        let (sb_post, v_post): (i128, i128) = if r.is_ok() { (k.drift_balance() as i128, mv0 as i128 - k.w.token_amount(&k.market_vault) as i128) } else { (d0, 0) };
+                        let head = format!("vn.dwd {} {} {} {} {} {} {} {} {} {} {} {}", crate::fam_bank::B::from_bank(&bank0).line(), bank0.last_update, pos_line(&p0), k.w.clock_ts,
+                            amount, all as u8, k.dec, cum, d0, sb_post, 0, v_post);
+                        match &r {
+                            Ok(()) => {
+                                let b1 = k.w.bank(&k.db.bank);
+                                let p1 = pos_of(&k.w, &acct, &k.db.bank);
+                                let p1_line = match &p1 { Some(b) => crate::fam_bank::Bal::from_balance(b).line(), None => "0 0 0 0 0 0".to_string() };
+                                l.push(format!("{} => ok {} {} {} {} {}", head, crate::fam_bank::B::from_bank(&b1).line(), b1.last_update, p1_line, v_post, d0 - sb_post));
+                            }
+                            // refusals the amount selection itself produces (the venue was never asked)
+                            Err(e) => match e.code() {
+                                Some(c) if c == 6018 || c == 6020 || c == 6023 => l.push(format!("{} => err {}", head, c)),
+                                _ => {}
+                            },
+                        }
+                    }
                     match r {
                         Err(e) => {
                             rep.bump("withdraw_refused");
